@@ -198,7 +198,7 @@ def validate_T1(ctx, infos, exe, npts):
                 body.append("Eval vm_compute in (nzf (%s_factors QIF %s %s), shm (%s QIF %s %s), shm (%s_alias QIF %s %s))."
                             % (n, ml, zl, n, ml, zl, n, ml, zl))
             else:
-                body.append("Eval vm_compute in (nzf (%s_factors QIF %s %s), shp (%s QIF %s %s), shp (%s QIF %s %s))."
+                body.append("Eval vm_compute in (nzf (%s_factors QIF %s %s), shp (%s QIF %s %s), shp (%s_alias QIF %s %s))."
                             % (n, ml, zl, n, ml, zl, n, ml, zl))
             order.append((n, pi))
             vals = " ".join("%.17g %.17g" % (float(c[0]), float(c[1])) for c in m + z)
